@@ -6,7 +6,7 @@
    (LeaspyGen.GenC13), executes the resulting script inside Coq on the set/unset pattern of the model's state and compares
    the log with the recorded trace operation by operation: the recorded call is an execution of the generated program. *)
 From Coq Require Import List Arith Bool String.
-From Leaspy Require Import Api.ApiModel Api.ApiProofs Api.ApiInst Api.ApiTie Api.ApiCalls Api.ApiCallsTie Api.SrcProg.
+From Leaspy Require Import Api.ApiModel Api.ApiProofs Api.ApiInst Api.ApiTie Api.ApiCalls Api.ApiCallsTie Api.SrcProg Api.SrcProgProofs.
 From LeaspyGen Require Import GenC13.
 Import ListNotations.
 
@@ -76,3 +76,42 @@ Definition check_estimate_src (c : bool * sinst * list (option U) * list rop) : 
   match c with
   | (joint, s, shape, t) => runs_prog (if joint then gen_estimate_joint else gen_estimate) s shape t
   end.
+
+(* case = (instance, shape, trace); the sampler activity is cut out of the trace by the harness, the hypothesis of
+   C13_src_mcmc_call_clean (it assigns data / individual variables only) is evaluated on it *)
+Definition check_mcmc_src (c : sinst * list (option U) * list rop) : bool :=
+  match c with
+  | (s, shape, t) => runs_prog gen_mcmc s shape t && sampling_ok U (inst_of s)
+  end.
+
+Definition check_scipy_src (c : sinst * list (option U) * list rop) : bool :=
+  match c with
+  | (s, shape, t) => runs_prog gen_scipy s shape t
+  end.
+
+(* self-test on hand-written traces (3 variables: 0 = t, 1 = parameter, 2 = model; conventions of checkers_selftest) *)
+Definition demo_sinst (n : nat) (keys : list (string * list (list nat))) (work : list (string * list (list rop))) : sinst :=
+  SInst [("t"%string, 0); ("model"%string, 2)] [] [] [1] [] [1] n keys [] work [].
+
+Example src_checkers_selftest :
+  check_estimate_src (false, demo_sinst 2 [("individual_parameters"%string, [[]; []])] [], [None; Some tt; None],
+                      [(3,0,0); (1,1,0); (0,1,2); (3,0,0); (1,2,0); (0,2,2)]) = true
+  (* the same call working on the model's own state is not an execution of the generated program *)
+  /\ check_estimate_src (false, demo_sinst 1 [("individual_parameters"%string, [[]])] [], [None; Some tt; None],
+                         [(1,0,0); (0,0,2)]) = false
+  /\ check_mcmc_src (demo_sinst 3 [("pyt_individual_parameters"%string, [[]])] [("sampling"%string, [[(0,0,2); (6,0,2)]])],
+                     [None; Some tt; None],
+                     [(7,0,0); (7,0,1); (7,0,2); (1,0,0); (0,0,2); (6,0,2); (3,0,0); (2,1,0); (8,1,0); (3,1,0); (1,2,0)]) = true
+  (* a sampler that assigns the parameter *)
+  /\ check_mcmc_src (demo_sinst 3 [("pyt_individual_parameters"%string, [[]])] [("sampling"%string, [[(1,0,1)]])],
+                     [None; Some tt; None],
+                     [(7,0,0); (7,0,1); (7,0,2); (1,0,0); (1,0,1); (3,0,0); (2,1,0); (8,1,0); (3,1,0); (1,2,0)]) = false
+  (* no clean-up *)
+  /\ check_mcmc_src (demo_sinst 3 [("pyt_individual_parameters"%string, [[]])] [("sampling"%string, [[]])],
+                     [None; Some tt; None],
+                     [(7,0,0); (7,0,1); (7,0,2); (1,0,0); (3,0,0); (8,1,0); (3,1,0); (1,2,0)]) = false
+  /\ check_scipy_src (demo_sinst 1 [] [("patient"%string, [[(0,1,2)]])], [None; Some tt; None],
+                      [(7,0,0); (7,0,1); (7,0,2); (0,0,1); (3,0,0); (1,1,0); (0,1,2)]) = true
+  /\ check_scipy_src (demo_sinst 1 [] [("patient"%string, [[(0,1,2)]])], [None; Some tt; None],
+                      [(7,0,0); (7,0,1); (7,0,2); (0,0,1); (3,0,0); (1,0,0); (0,1,2)]) = false.
+Proof. vm_compute. repeat split; reflexivity. Qed.
